@@ -1,5 +1,81 @@
 package main
 
-import "verif/harness/core"
+import (
+	"fmt"
+	"strings"
 
-func pinned(r *core.Run) {}
+	"github.com/dolthub/go-mysql-server/memory"
+
+	"verif/harness/core"
+	"verif/harness/g9blib"
+)
+
+// Known findings of C42 (findings/C42.txt, findings/C42.md). Signatures:
+const (
+	sigF33        = "panic:sql/analyzer.validateReadOnlyTransaction.func1:runtime-error:-invalid-memory-address-or-nil-pointer-dereference"
+	sigTxnDDL     = "write-accepted:txn-ro:ddl"
+	sigTxnCall    = "write-accepted:txn-ro:call"
+	sigDbRoDDL    = "write-accepted:db-ro:ddl-unguarded"
+	sigDbRoCommit = "read-rejected:db-ro:plain-memory-session"
+)
+
+// dbRoUnguarded is the input class of sigDbRoDDL: DDL kinds whose plan carries no ResolvedTable of
+// the read-only database below a root node that validateReadOnlyDatabase inspects.
+var dbRoUnguarded = map[string]bool{
+	"alter-add-foreign-key": true, "alter-auto-increment": true, "alter-database-collate": true,
+	"alter-drop-constraint-fk": true, "alter-drop-default": true, "alter-drop-foreign-key": true,
+	"alter-rename-to": true, "alter-set-default": true, "alter-table-collate": true, "alter-table-comment": true,
+	"alter-table-convert-charset": true, "create-procedure": true, "create-procedure-block": true,
+	"create-view-constant": true, "drop-database-main": true, "drop-procedure": true, "drop-procedure-if-exists": true,
+	"drop-view": true, "drop-view-if-exists": true, "rename-table": true, "rename-tables-two": true, "rename-view": true,
+}
+
+func findTmpl(kind string) tmpl {
+	for _, t := range catalogue {
+		if t.kind == kind {
+			return t
+		}
+	}
+	panic("no template " + kind)
+}
+
+// pinned replays one witness per known finding on the default parameterisation, every run.
+func pinned(r *core.Run) {
+	p0 := makeParams(r, 0)
+	type pw struct {
+		sig, mode, kind, what string
+		fails               func(o *outcome) bool
+	}
+	accepted := func(o *outcome) bool { return o.Inconclusive == "" && o.TwinChanged && o.RoChanged && o.RoErr == "" }
+	for k, w := range []pw{
+		{sigF33, modeTxnRO, "insert-values", "DML on a permanent table inside START TRANSACTION READ ONLY panics (nil sql.TemporaryTable) instead of returning ErrReadOnlyTransaction",
+			func(o *outcome) bool { return o.RoPanicSig == sigF33 }},
+		{sigTxnDDL, modeTxnRO, "create-table", "DDL inside START TRANSACTION READ ONLY is executed (MySQL: error 1792)", accepted},
+		{sigTxnCall, modeTxnRO, "call-writing-proc", "CALL of a procedure that INSERTs inside START TRANSACTION READ ONLY executes the INSERT", accepted},
+		{sigDbRoDDL, modeDbRO, "drop-database-main", "DDL that reaches a read-only database without a ResolvedTable child (here DROP DATABASE d) is executed", accepted},
+	} {
+		o := observe(r, w.mode, "query", findTmpl(w.kind), p0, 1_000_000+k)
+		r.Pinned(w.sig, fmt.Sprintf("%s [%s: %s -> twin_changed=%v ro_changed=%v ro_error=%q]", w.what, w.mode, o.SQL, o.TwinChanged, o.RoChanged, core.Clip(o.RoErr, 80)),
+			w.fails(o), map[string]any{"mode": w.mode, "sql": o.SQL, "ro_error": o.RoErr, "ro_changed": o.RoChanged, "ro_diff": o.RoDiff, "inconclusive": o.Inconclusive})
+	}
+
+	// via=domain: memory.ReadOnlyDatabase with an ordinary memory.Session fails every statement that
+	// touches a table, reads included, when the statement's implicit transaction is committed. The
+	// exploration runs db-ro sessions over a provider that unwraps the database (see unwrapProvider).
+	hist := memory.NewHistoryDatabase("d")
+	e := g9blib.NewEng(hist)
+	s := e.NewSess()
+	s.MustExec("CREATE TABLE t (id INT PRIMARY KEY, a INT)")
+	s.MustExec("INSERT INTO t VALUES (1, 1)")
+	e.Close()
+	e2 := g9blib.NewEng(memory.ReadOnlyDatabase{HistoryDatabase: hist})
+	defer e2.Close()
+	res := e2.NewSess().Exec("SELECT * FROM t")
+	fails := res.Err != nil && strings.Contains(res.Err.Error(), "unknown database type")
+	r.Pinned(sigDbRoCommit, fmt.Sprintf("SELECT on a memory.ReadOnlyDatabase through a plain memory.Session fails at commit [SELECT * FROM t -> %q]", errText(res)),
+		fails, map[string]any{"sql": "SELECT * FROM t", "error": errText(res)})
+	if !fails && res.Failed() {
+		r.Violation("read-rejected:db-ro:plain-memory-session-other-error", map[string]any{"sql": "SELECT * FROM t", "error": errText(res)})
+	}
+	r.Assume("db-ro sessions use a provider that hands memory.Session the wrapped *memory.HistoryDatabase (domain exclusion of finding " + sigDbRoCommit + "): a break confined to plain memory.Session + ReadOnlyDatabase commit handling is not seen")
+}
